@@ -215,6 +215,29 @@ func ReleaseFH(fh fusefs.FileHandle) {
 	}
 }
 
+// PassthroughContent returns the whole content of the backing file a handle offers for FUSE
+// passthrough (at most limit bytes), or ok=false when the handle offers none.
+func PassthroughContent(fh fusefs.FileHandle, limit int64) (content []byte, ok bool) {
+	pf, isPF := fh.(fusefs.FilePassthroughFder)
+	if !isPF {
+		return nil, false
+	}
+	fd, has := pf.PassthroughFd()
+	if !has {
+		return nil, false
+	}
+	buf := make([]byte, limit)
+	total := 0
+	for total < len(buf) {
+		n, err := syscall.Pread(fd, buf[total:], int64(total))
+		if n <= 0 || err != nil {
+			break
+		}
+		total += n
+	}
+	return buf[:total], true
+}
+
 // Read = Open + Read + Release.
 func (t *Tree) Read(p string, off int64, n int) ([]byte, syscall.Errno) {
 	fh, errno := t.Open(p)
